@@ -22,7 +22,7 @@ EXHAUSTIVE = {"quick": ["levenshtein_neighbors: all x len<=5 over alphabets A, A
 REQUIRE = {"lev1_strings": 400, "ham1_strings": 100, "strings_with_repeated_letters": 100, "empty_string_cases": 1, "brute_force_crosschecks": 50,
            "variable_positions_cases": 20, "nnn_cases": 20, "pairs_cases": 16, "pairs_index_cases": 16, "neighbor_numbers_cases": 16,
            "isdist1_cases": 40, "nndist_cases": 30, "nndist_value_0": 2, "nndist_value_1": 5, "nndist_value_2": 5, "nndist_value_3": 3, "nndist_value_4": 2,
-           "default_alphabet_cases": 10}
+           "default_alphabet_cases": 10, "empty_reference_cases": 2}
 SHARDS = {"quick": 4, "thorough": 16}
 
 
@@ -174,6 +174,8 @@ def k_numbers(ctx, seqs, reference, alphabet, mode, default_nb=False):
     ref = set(reference) if reference is not None else set(seqs)
     want = [sum(1 for r in ref if d(s, r) == 1) for s in seqs]
     ctx.count("neighbor_numbers_cases")
+    if reference is not None and not reference:
+        ctx.count("empty_reference_cases")
     ctx.nontriv(["num", seqs, reference, alphabet, mode])
     ctx.sample("numbers", {"seqs": seqs[:8], "reference": reference and reference[:8], "mode": mode, "expected": want[:8]})
     kw = {} if default_nb else {"neighborhood": _nb(mode, alphabet)}
@@ -254,6 +256,8 @@ def generate(tier, seed):
         mode = "lev" if i % 2 else "ham"
         yield "pairs", {"seqs": seqs, "alphabet": alpha, "mode": mode}, i < 30
         ref = G.small_multiset(rng, pool, 1, 15) if i % 3 else None
+        if i % 9 == 1:
+            ref = []                      # an explicitly passed empty reference set
         yield "numbers", {"seqs": seqs, "reference": ref, "alphabet": alpha, "mode": mode}, i < 30
     for i in range(100 * TS if thorough else 8):
         rep = G.repertoire(rng, rng.randint(5, 30), lo=2, hi=6)
